@@ -499,7 +499,7 @@ pub fn run(ctx: &Ctx, id: &str) -> i32 {
     report.rule = if id == "C07" {
         format!("call histories of begin/commit/cancel over tokens {{a,b,c}} (tokens introduced in this order: symmetry), model-guided bounded-exhaustive: every history of exactly {depth} calls with every terminal outcome (reservation: success / abort / missing receipt / abort after a status information that already carried a receipt number; reversal: completed / abort / abort B8 echoing the request's receipt number) branched where the model accepts the call, x transactions_max_num 0..3; then a probe suffix cancel(a), cancel(b), cancel(c); plus {n_walks} random walks to depth 40 with empty / 99-byte / non-ASCII tokens and max 0..4. Additionally: every abort code 0..255 x {{no receipt, own receipt echoed, FFFF, another receipt}} for commit and cancel with one and two open transactions, and a link fault (close/garbage/NACK/foreign/silence) at every packet of the reservation exchange followed by commit/cancel (the token must map to the receipt of the reservation that completed). Oracle: sequential client model (D.3) for the result class, 'refused => no request and no connection', 'commit/cancel carry the receipt number the terminal issued for that token', and the hook snapshot of the client's map after every call. Non-trivial = history with at least one accepted call; distinct by hash of (history, max).")
     } else {
-        format!("the C07 histories (exactly {depth} calls, max 1..3) and {n_walks} random walks, each run under a clean-up behaviour chosen per scenario: pending query reports {{no receipt field, FFFF, a dangling receipt}}, reversal of the dangling receipt {{completes, aborts}}, end-of-day {{completion, abort A0, every other abort code in turn (quick: A0 + 8 others per seed)}}, with intermediate/print packets inside the end-of-day exchange. Oracle (temporal checker over the request log per call): a commit/cancel the terminal completed that leaves no token open is followed by exactly PendingQuery -> PreAuthReversal(d) iff d reported -> EndOfDay(password); result Ok on completion/A0, error otherwise; with tokens remaining no PendingQuery/EndOfDay. Non-trivial = history containing at least one completed commit/cancel; distinct by hash of (history, max, clean-up behaviour).")
+        format!("the C07 histories (exactly {depth} calls, max 1..3) and {n_walks} random walks, each run under a clean-up behaviour chosen per scenario: pending query reports {{no receipt field, FFFF, a dangling receipt}}, reversal of the dangling receipt {{completes, aborts}}, end-of-day {{completion, abort A0, every abort code 00..FF in turn}}, with intermediate/print packets inside the end-of-day exchange. Oracle (temporal checker over the request log per call): a commit/cancel the terminal completed that leaves no token open is followed by exactly PendingQuery -> PreAuthReversal(d) iff d reported -> EndOfDay(password); result Ok on completion/A0, error otherwise; with tokens remaining no PendingQuery/EndOfDay. Non-trivial = history containing at least one completed commit/cancel; distinct by hash of (history, max, clean-up behaviour).")
     };
     report.exhaustive = Some(true);
     report.assumptions = vec![
@@ -519,16 +519,8 @@ pub fn run(ctx: &Ctx, id: &str) -> i32 {
     }
     report.extra.insert("enumerated_histories".into(), json!(all.len()));
     report.extra.insert("depth".into(), json!(depth));
-    let eod_codes: Vec<u8> = if quick {
-        let mut rng = Rng::derive(seed, 0xE0D);
-        let mut v = vec![0xa0u8];
-        for _ in 0..8 {
-            v.push(rng.byte());
-        }
-        v
-    } else {
-        (0..=255u8).collect()
-    };
+    let eod_codes: Vec<u8> = (0..=255u8).collect();
+    let _ = quick;
     sharded(&mut report, threads, |shard, r| {
         let mut rng = Rng::derive(seed, 0xC07 + shard as u64);
         let mut k = 0usize;
@@ -626,7 +618,7 @@ pub fn run(ctx: &Ctx, id: &str) -> i32 {
         // issues another receipt number; begin must record the receipt of the reservation that completed
         if id == "C07" {
             for kind in [FaultKind::Close, FaultKind::Garbage, FaultKind::Nack, FaultKind::Foreign, FaultKind::Silence] {
-                for p in (0..5usize).filter(|p| (*p + kind as usize) % threads == shard % threads || threads > 25) {
+                for p in (0..5usize).filter(|p| (*p + format!("{kind:?}").len()) % threads == shard % threads || threads > 25) {
                     let cfg = ClientCfg { max_tx: 1, ..ClientCfg::default() };
                     let mut sc = Scenario { cfg: cfg.clone(), ..Scenario::default() };
                     sc.calls = vec![Call::Begin("a".into()), Call::Commit("a".into(), 100), Call::Begin("b".into()), Call::Cancel("b".into())];
